@@ -490,23 +490,38 @@ def formatIndex (txt : Bytes) : Option Nat :=
     | n :: rest, i => if n == txt then some i else go rest (i + 1)
   go formatTypeName 0
 
+/-- `l.contexts = append(l.contexts, l.ctx); l.bases = append(l.bases, l.base)` -/
+@[inline] def pushCtx (st : St) : St :=
+  { st with contexts := st.contexts ++ [st.ctx], bases := st.bases ++ [st.lbase] }
+
+/-- `case tokenEnd` with `last = len(l.contexts) - 1 >= 0`, `c = l.contexts[last]`: restore the
+context and the base context (`l.bases[last]` is a checked access) and cut both stacks -/
+def popCtx (st : St) (c : Nat) : Except Fault St :=
+  let last := st.contexts.length - 1
+  match st.bases[last]? with
+  | none => .error .index
+  | some b =>
+    let st := { st with ctx := c, contexts := st.contexts.dropLast }
+    let st := if st.lbase ≠ b then { st with lbase := b, tagCtx := b } else st
+    .ok { st with bases := st.bases.take last }
+
 /-- the bookkeeping after an identifier or keyword when `end == tokenEndStatement` -/
-def afterIdent (st : St) (loc : CodeLoc) (typ : Nat) (txt : Bytes) : St × CodeLoc :=
+def afterIdent (st : St) (loc : CodeLoc) (typ : Nat) (txt : Bytes) : Except Fault (St × CodeLoc) :=
   if st.totals = loc.first then
     if typ = tokenMacro then
-      ({ st with contexts := st.contexts ++ [st.ctx] }, { loc with macroOrUsing := true })
+      .ok (pushCtx st, { loc with macroOrUsing := true })
     else if typ = tokenEnd then
       match st.contexts.getLast? with
-      | some c => ({ st with ctx := c, contexts := st.contexts.dropLast }, loc)
-      | none => (st, loc)
-    else if typ = tokenIf ∨ typ = tokenFor ∨ typ = tokenSwitch ∨ typ = tokenSelect then
-      if st.contexts.length > 0 then ({ st with contexts := st.contexts ++ [st.ctx] }, loc) else (st, loc)
-    else (st, loc)
+      | some c => (popCtx st c).map fun st => (st, loc)
+      | none => .ok (st, loc)
+    else if typ = tokenIf ∨ typ = tokenFor ∨ typ = tokenSwitch ∨ typ = tokenSelect ∨ typ = tokenRaw then
+      if st.contexts.length > 0 then .ok (pushCtx st, loc) else .ok (st, loc)
+    else .ok (st, loc)
   else if typ = tokenUsing then
-    ({ st with contexts := st.contexts ++ [st.ctx] }, { loc with macroOrUsing := true })
+    .ok (pushCtx st, { loc with macroOrUsing := true })
   else if loc.macroOrUsing ∧ typ = tokenIdentifier ∧ st.totals ≠ loc.first + 1 then
-    (st, { loc with identIndex := st.totals, identTxt := txt })
-  else (st, loc)
+    .ok (st, { loc with identIndex := st.totals, identTxt := txt })
+  else .ok (st, loc)
 
 /-- `for _, c := range l.src[i:i+n] { if c == '\n' { l.newline() } else if isStartChar(c) { l.column++ } }` -/
 def walkCode (E : Env) : Nat → Nat → St → Except Fault St
@@ -611,7 +626,7 @@ def codePercent (E : Env) (endT : Nat) (st : St) (loc : CodeLoc) (c1 c2 : Option
     -- a macro declaration with an explicit result type or a using statement with a type
     let st := if loc.identIndex = st.totals then
         (match formatIndex loc.identTxt with
-         | some i => { st with ctx := i }
+         | some i => { st with ctx := i, lbase := i, tagCtx := i }
          | none => st)
       else st
     pure (.ret st none)
@@ -644,7 +659,8 @@ def codeIdent (E : Env) (endT : Nat) (st : St) (loc : CodeLoc) (c : UInt8) : Exc
   | .inr o => pure o
   | .inl s =>
     let (st, typ, txt) ← lexIdent E st s
-    let (st, loc) := if endT = tokenEndStatement then afterIdent st loc typ txt else (st, loc)
+    let (st, loc) ← (if endT = tokenEndStatement then afterIdent st loc typ txt else pure (st, loc)
+                      : Except Fault (St × CodeLoc))
     let elas := typ = tokenBreak ∨ typ = tokenContinue ∨ typ = tokenFallthrough ∨ typ = tokenReturn ∨
                 typ = tokenIdentifier
     pure (.cont st { loc with elas })
